@@ -28,6 +28,7 @@ let spec ctx name ok detail = Util.spec ctx.opidx name ok detail
 let impl_obs ctx = Hashtbl.find_opt ctx.impl ctx.opidx
 
 let run_op ctx (toks : string list) =
+  let mark = Buffer.length out in
   (match toks with
   | "decttl" :: rest ->
       let v = bytes_of_hex (match rest with [] -> "-" | h :: _ -> h) in
@@ -57,6 +58,11 @@ let run_op ctx (toks : string list) =
   | op :: _ when Pipe.run ctx.opidx (List.rev (Hashtbl.find_all ctx.impl ctx.opidx)) toks -> ignore op
   | op :: _ -> pr "obs %d unknown-op %s\n" ctx.opidx op
   | [] -> ());
+  (* does the implementation agree with the model on this operation? *)
+  (let mine = List.filter (fun l -> String.length l > 4 && String.sub l 0 4 = "obs ")
+      (String.split_on_char '\n' (Buffer.sub out mark (Buffer.length out - mark))) in
+   let theirs = List.map (fun toks -> String.concat " " ("obs" :: string_of_int ctx.opidx :: toks)) (List.rev (Hashtbl.find_all ctx.impl ctx.opidx)) in
+   if Hashtbl.length ctx.impl > 0 && mine <> theirs then Pipe.diverged := true);
   ctx.opidx <- ctx.opidx + 1
 
 (* ---- reading files ---- *)
